@@ -47,6 +47,11 @@ def _gen_plan(seed, tier):
         if plan['nested'] == 'DE': plan['nested_np'] = r.choice([5, 6, 8])
         plan['limits'] = [min(plan['limits'][0] if plan['limits'][0] is not None else 12, 12), plan['limits'][1]]
         plan['map'] = r.choice([None, None, {'mode': 'serial'}, {'mode': 'shuffled'}])
+        r3 = sub_rng(seed, 'plan.c01.threads')
+        if r3.random() < 0.3:
+            # the members run as interleaved tasks (real threads, one at a time, pre-empted at seam crossings and at seeded line
+            # events inside mystic): what one member reports must be its own evaluated point, whatever the others do meanwhile
+            plan['map'] = {'mode': 'threads', 'preempt_lines': r3.choice([0.0, 0.02, 0.1]), 'workers': r3.choice([2, 3, 8]), 'salt': 1}
         plan['modes'] = r.sample(['steps', 'steps', 'solve_step', 'solve'], 2)
         plan['ops'] = []
         return plan
